@@ -107,7 +107,7 @@ class SMTwist(SMUserList):
         if len(self) == 1:
             return base.iszerovec(self.w)
         else:
-            return [base.iszerovec(x.w) for x in self.data]
+            return [base.iszerovec(x.w) for x in self]
 
     @property
     def isrevolute(self):
@@ -133,7 +133,7 @@ class SMTwist(SMUserList):
         if len(self) == 1:
             return base.iszerovec(self.v)
         else:
-            return [base.iszerovec(x.v) for x in self.data]
+            return [base.iszerovec(x.v) for x in self]
 
 
     @property
@@ -445,7 +445,10 @@ class Twist3(SMTwist):
             >>> t = Twist3([1, 2, 3, 4, 5, 6])
             >>> t.v
         """
-        return self.data[0][:3]
+        if len(self) == 1:
+            return self.data[0][:3]
+        else:
+            return np.array([x[:3] for x in self.data])
 
     @property
     def w(self):
@@ -466,7 +469,10 @@ class Twist3(SMTwist):
             >>> t.w
 
         """
-        return self.data[0][3:6]
+        if len(self) == 1:
+            return self.data[0][3:6]
+        else:
+            return np.array([x[3:6] for x in self.data])
 
     # -------------------- variant constructors ----------------------------#
 
@@ -687,6 +693,8 @@ class Twist3(SMTwist):
 
         :seealso: :func:`Twist3.Ad`
         """
+        if len(self) > 1:
+            return [x.ad() for x in self]
         return np.block([
                     [base.skew(self.w), base.skew(self.v)], 
                     [np.zeros((3, 3)), base.skew(self.w)]
@@ -718,6 +726,8 @@ class Twist3(SMTwist):
 
         :seealso: :func:`Twist3.ad`, :func:`Twist3.SE3`, :func:`Twist3.exp`
         """
+        if len(self) > 1:
+            return [x.Ad() for x in self]
         return self.SE3().Ad()
 
     def SE3(self):
@@ -791,6 +801,8 @@ class Twist3(SMTwist):
             >>> S.pitch()
 
         """
+        if len(self) > 1:
+            return [x.pitch() for x in self]
         return np.dot(self.w, self.v)
 
     def line(self):
@@ -832,6 +844,8 @@ class Twist3(SMTwist):
             >>> S = Twist3(T)
             >>> S.pole()
         """
+        if len(self) > 1:
+            return [x.pole() for x in self]
         return np.cross(self.w, self.v) / self.theta()
 
     def theta(self):
@@ -855,6 +869,8 @@ class Twist3(SMTwist):
             >>> S = Twist3(T)
             >>> S.theta()
         """
+        if len(self) > 1:
+            return [x.theta() for x in self]
         return base.norm(self.w)
 
     def exp(self, theta=None, units='rad'):
@@ -890,7 +906,7 @@ class Twist3(SMTwist):
 
         :seealso: :func:`spatialmath.base.trexp`
         """
-        if units != 'rad' and self.isprismatic:
+        if units != 'rad' and np.any(self.isprismatic):
             print('Twist3.exp: using degree mode for a prismatic twist')
 
         if theta is None:
@@ -900,7 +916,10 @@ class Twist3(SMTwist):
 
         if base.isscalar(theta):
             # theta is a scalar
-            return SE3(base.trexp(self.S * theta))
+            if len(self) == 1:
+                return SE3(base.trexp(self.S * theta))
+            else:
+                return SE3([base.trexp(S * theta) for S in self.data])
         else:
             # theta is a vector
             if len(self) == 1:
@@ -1253,7 +1272,10 @@ class Twist2(SMTwist):
             >>> t.v
 
         """
-        return self.data[0][:2]
+        if len(self) == 1:
+            return self.data[0][:2]
+        else:
+            return np.array([x[:2] for x in self.data])
 
     @property
     def w(self):
@@ -1274,7 +1296,10 @@ class Twist2(SMTwist):
             >>> t.w
 
         """
-        return self.data[0][2]
+        if len(self) == 1:
+            return self.data[0][2]
+        else:
+            return np.array([x[2] for x in self.data])
 
     # -------------------------  methods -------------------------------#
 
@@ -1360,7 +1385,7 @@ class Twist2(SMTwist):
         :seealso: :func:`spatialmath.base.trexp2`
         """
 
-        if units != 'rad' and self.isprismatic:
+        if units != 'rad' and np.any(self.isprismatic):
             print('Twist3.exp: using degree mode for a prismatic twist')
 
         if theta is None:
@@ -1369,9 +1394,17 @@ class Twist2(SMTwist):
             theta = base.getunit(theta, units)
 
         if base.isscalar(theta):
-            return SE2(base.trexp2(self.S * theta))
+            if len(self) == 1:
+                return SE2(base.trexp2(self.S * theta))
+            else:
+                return SE2([base.trexp2(S * theta) for S in self.data])
         else:
-            return SE2([base.trexp2(self.S * t) for t in theta])
+            if len(self) == 1:
+                return SE2([base.trexp2(self.S * t) for t in theta])
+            elif len(self) == len(theta):
+                return SE2([base.trexp2(S * t) for S, t in zip(self.data, theta)])
+            else:
+                raise ValueError('length of twist and theta not consistent')
 
     @property
     def unit(self):
